@@ -37,6 +37,11 @@ SPECS = {
     "C07": dict(units=[machine("TestC07", 640, 10000, steps=30)], floor=0.50, rule=None, assumptions=MACHINE_ASSUME),
     "C09": dict(units=[machine("TestC09", 320, 5000, steps=36)], floor=0.50, rule=None, assumptions=MACHINE_ASSUME),
     "C10": dict(units=[machine("TestC10", 400, 6000, steps=36)], floor=0.40, rule=None, assumptions=MACHINE_ASSUME),
+    "C18": dict(units=[dict(test="TestC18", quick=320000, thorough=16000000, timeout=1800), dict(test="TestC18AolKeys", quick=80000, thorough=2000000, timeout=1800),
+                       dict(test="TestC18Grid", kind="plain", quick=1, thorough=1)],
+                floor=0.10, exhaustive=False,
+                rule="rapid-generated pairs of 0-4 component tuples (lengths 0,1,2,254,255,256+,random; contents built from other components' length bytes) related by one boundary move/merge/split/truncate/bit flip, arbitrary and near-valid byte strings for the decoder, the complete length grid {0,1,254,255,256}^k for k<=3 with hostile fill bytes, and the four AOL key types over 1..255-byte addresses, validator-admitted topic names and extreme offsets; oracles: round trip, independent reference encoder, injectivity, prefix-exactness, rejection without truncation, decode-or-error, genesis string round trip; non-trivial = the two tuples differ while their encodings are in a byte-prefix relation or have equal length (pairs), differing tuples (grid), non-20-byte address / 69-70 byte topic / offset > 2^32 (AOL keys); distinct = distinct (Encode(x),Encode(y))",
+                assumptions=["Go's bytes/strings packages", "sdk.AccAddress bech32 conversion (SDK, trusted)"]),
     "C19": dict(units=[machine("TestC19", 240, 4000), dict(test="TestC19Config", kind="plain", quick=1, thorough=1)], floor=0.40, rule=None, assumptions=MACHINE_ASSUME + ["only the newest upgrade descriptor can be executed end to end; for earlier descriptors only the store bookkeeping is checked", "the pre-upgrade binary is emulated by the same code with the newest descriptor removed from the exported app.Upgrades list"]),
     "C15": dict(units=[machine("TestC15", 640, 12000, steps=30)], floor=0.50, rule=None, assumptions=MACHINE_ASSUME),
 }
